@@ -358,3 +358,18 @@ Definition sx_oracle (ops obs : list (list Z)) : bool :=
      nobody took may wait for ever — its (empty) expected outcome is still checked above *)
   let final := if closed then match last obs [] with [9; st; ch] => (st =? 0) && (ch =? 0) | _ => false end else true in
   per && (nodead || negb closed) && Nat.eqb nev nev_mine && final.
+
+(* ================================================================================================
+   Free-running stress (harness/stress_signal.cpp, engine sg_stress): real uncontrolled threads, one-shot listeners.
+   The harness only counts lost / doubled / wrong-valued / mis-ordered outcomes; the model's prediction — by
+   c15_cross_thread_conservation / c15_cross_thread_terminal: never lost, never doubled — is that all counters are zero.
+   ================================================================================================ *)
+Definition ss_valid (l : list Z) : bool :=
+  match l with
+  | [40; per; n; mask; j] =>
+      (1 <=? per) && (per <=? 1000000) && (1 <=? n) && (n <=? 4) && (0 <=? mask) && (mask <=? 15) && (0 <=? j) && (j <=? 1000)
+  | _ => false
+  end.
+Definition ss_run (ops : list (list Z)) : list (list Z) :=
+  map (fun l => if ss_valid l then [20; 0; 0; 0; 0] else [1]) ops.
+Definition ss_oracle (ops obs : list (list Z)) : bool := lists_eqb obs (ss_run ops).
